@@ -775,7 +775,8 @@ func runFailover(seed int64, idx int) *scen.Outcome {
 	dialTO := []time.Duration{50 * time.Millisecond, 300 * time.Millisecond, 5 * time.Second}[rng.Intn(3)]
 	f := &fakeRT{t0: time.Now(), down: map[string][]downIv{}, pingLat: time.Duration(rng.Intn(4)) * time.Millisecond}
 	f.latency = func(string, time.Duration) time.Duration { return 2 * time.Millisecond }
-	variant := []string{"waiters", "failover", "close", "fallback"}[idx%4]
+	variant := []string{"waiters", "failover", "close", "fallback", "update"}[idx%5]
+	sub := idx / 5
 	n := 2 + rng.Intn(3)
 	var addrs []string
 	for i := 0; i < n; i++ {
@@ -894,7 +895,7 @@ func runFailover(seed int64, idx int) *scen.Outcome {
 		fbFrom = f.now()
 		fbTo = fbFrom + d
 		c.Fallback(d)
-		if (idx/4)%2 == 1 {
+		if sub%2 == 1 {
 			// a second pause requested while the first is still in effect
 			// (two callers backing off): routing resumes when both have ended
 			d2 := time.Duration(50+rnd(400)) * time.Millisecond
@@ -913,6 +914,145 @@ func runFailover(seed int64, idx int) *scen.Outcome {
 			delay := time.Duration(rnd(int(d/time.Millisecond)+100)) * time.Millisecond
 			spawn(func() { time.Sleep(delay); do(form) })
 		}
+	case "update":
+		// Every target is healthy for the whole history; the target set is replaced
+		// again and again (same set, subset, superset) while calls are in flight
+		// on every target. After an Update the live set is empty until the next
+		// detection round; the parked callers must be released by it, and the
+		// Client must route again afterwards.
+		f.latency = func(string, time.Duration) time.Duration { return time.Duration(1+rnd(45)) * time.Millisecond }
+		time.Sleep(250 * time.Millisecond)
+		callers := 2*n + rnd(8)
+		nUpd := 2 + rnd(6)
+		var umu sync.Mutex
+		var updates []time.Duration
+		var lastU time.Duration = -1
+		var updDone int32
+		pool := append(append([]string{}, addrs...), "h9")
+		spawn(func() {
+			for u := 0; u < nUpd; u++ {
+				time.Sleep(time.Duration(250+rnd(400)) * time.Millisecond)
+				var set []string
+				switch rnd(3) {
+				case 0:
+					set = append(set, addrs...)
+				default:
+					for _, a := range pool {
+						if rnd(2) == 0 {
+							set = append(set, a)
+						}
+					}
+					if len(set) == 0 {
+						set = append(set, pool[rnd(len(pool))])
+					}
+				}
+				umu.Lock()
+				updates = append(updates, f.now())
+				umu.Unlock()
+				c.Update(set...)
+				umu.Lock()
+				lastU = f.now()
+				umu.Unlock()
+			}
+			atomic.StoreInt32(&updDone, 1)
+		})
+		uforms := []string{"Call", "CallWithContext", "Go", "RoundTrip", "NewStream"}
+		for k := 0; k < callers; k++ {
+			spawn(func() {
+				for {
+					if atomic.LoadInt32(&updDone) == 1 {
+						umu.Lock()
+						stop := f.now() > lastU+1500*time.Millisecond
+						umu.Unlock()
+						if stop {
+							return
+						}
+					}
+					do(uforms[rnd(len(uforms))])
+					time.Sleep(time.Duration(rnd(10)) * time.Millisecond)
+				}
+			})
+		}
+		fin := vEnv{}.Settle(func() bool { return atomic.LoadInt32(&running) == 0 }, time.Hour)
+		if !fin {
+			out.Inconclusive = "update callers did not finish"
+		}
+		desc += fmt.Sprintf(" callers=%d updates=%d", callers, nUpd)
+		const eps = time.Millisecond
+		hookSlack := time.Duration(0)
+		if strings.Contains(desc, "hook=") {
+			hookSlack = 250 * time.Millisecond
+		}
+		round := 2*tickD + f.pingLat + eps // a detection round that no Update can disturb (Updates are >= 250 ms apart)
+		byTok := map[uint64]arrival{}
+		for _, a := range f.snapshot() {
+			if a.token != 0 {
+				byTok[a.token] = a
+			}
+		}
+		atUpdate := func(t time.Duration) bool {
+			for _, u := range updates {
+				if t == u {
+					return true
+				}
+			}
+			return false
+		}
+		var routed, parked, sameInstant int64
+		for _, fc := range calls {
+			if atomic.LoadInt32(&fc.done) == 0 {
+				bad("C18/failover/stranded", fmt.Sprintf("%s started at +%v is still waiting after a virtual hour (%s)", fc.form, fc.start, desc))
+				break
+			}
+			a, reached := byTok[fc.tok]
+			if reached && a.addr == "" {
+				reached = false
+			}
+			wait := fc.end - fc.start
+			if reached {
+				routed++
+				if a.at > fc.start {
+					parked++
+				}
+				if a.at > fc.start+hookSlack+round {
+					bad("C18/failover/update-late-release", fmt.Sprintf("%s (started +%v) was routed only at +%v although every target was healthy; a caller parked after an Update must be released by the next undisturbed detection round (%v) (%s)", fc.form, fc.start, a.at, round, desc))
+				}
+				if fc.err != nil {
+					bad("C18/failover/unexpected-error", fmt.Sprintf("%s routed to healthy %s returned %v (%s)", fc.form, a.addr, fc.err, desc))
+				}
+				continue
+			}
+			if wait < dialTO && atUpdate(fc.end) {
+				// released and then found the set replaced in the same virtual instant: not judged
+				sameInstant++
+				continue
+			}
+			if fc.err == nil {
+				bad("C18/failover/timeout-nil", fmt.Sprintf("%s that was not routed completed without error (%s)", fc.form, desc))
+			}
+			if wait > dialTO+hookSlack+eps {
+				bad("C18/failover/waited-too-long", fmt.Sprintf("%s waited %v, DialTimeout is %v (%s)", fc.form, wait, dialTO, desc))
+			}
+			if wait < dialTO {
+				bad("C18/failover/update-failed-early", fmt.Sprintf("%s started +%v failed with %v after %v, before DialTimeout %v, with every target healthy (%s)", fc.form, fc.start, fc.err, wait, dialTO, desc))
+			} else if dialTO > round {
+				bad("C18/failover/update-not-released", fmt.Sprintf("%s started +%v waited until its DialTimeout (%v) and failed with %v although every target was healthy throughout and a full detection round (%v) fits into the wait; Updates at %v (%s)", fc.form, fc.start, dialTO, fc.err, round, updates, desc))
+			} else if fc.start > lastU+round {
+				bad("C18/failover/update-never-recovers", fmt.Sprintf("%s started +%v, more than a detection round after the last Update (+%v), was not routed (%v) although every target was healthy (%s)", fc.form, fc.start, lastU, fc.err, desc))
+			}
+		}
+		out.Stats["calls"] = int64(len(calls))
+		out.Stats["update_routed"] = routed
+		out.Stats["update_parked_then_routed"] = parked
+		out.Stats["update_same_instant_not_judged"] = sameInstant
+		if parked == 0 && routed > 0 {
+			out.Stats["update_histories_without_parked_caller"] = 1
+		}
+		c.Close()
+		synctest.Wait()
+		out.Sig = "failover/" + desc
+		out.Nontrivial = routed > 0 || len(calls) > 0
+		return out
 	case "failover":
 		// everybody healthy; one target starts refusing at T and recovers later; a steady sequential caller
 		time.Sleep(250 * time.Millisecond)
@@ -927,7 +1067,7 @@ func runFailover(seed int64, idx int) *scen.Outcome {
 		f.mu.Unlock()
 		desc += fmt.Sprintf(" victim=%s refuses [%v,%v)", victim, failFrom, failTo)
 		// the steady caller either makes calls or only opens streams
-		streamsOnly := (idx/4)%3 == 2
+		streamsOnly := sub%3 == 2
 		if streamsOnly {
 			desc += " steady-caller=NewStream"
 		}
